@@ -597,7 +597,7 @@ pub fn worker(cfg: &WorkerCfg, emit: &mut dyn FnMut(Violation)) -> Stats {
                 stats.distinct_nontrivial.insert(h);
             }
         }
-        if stats.samples.len() < 3 && (any_fired || g % 97 == 0) {
+        if stats.samples.is_empty() || (stats.samples.len() < 3 && (any_fired || g % 97 == 0)) {
             stats.samples.push(json!({"scenario": sc, "result": format!("{:?}", out.result), "file_len": out.file.as_ref().map(|f| f.len()), "trace_tail": trace_tail(&out.state.trace, 6)}));
         }
         if let Some(v) = judge(&sc, &out, seed) {
